@@ -1,6 +1,7 @@
 import Geo.Props.C10
 import Geo.Props.C10b
 import Geo.Props.C10c
+import Geo.Props.C10d
 #print axioms Geo.T10_mirror2
 #print axioms Geo.T10_mirror_spec
 #print axioms Geo.T10_mirror_involution_2d
@@ -21,3 +22,6 @@ import Geo.Props.C10c
 #print axioms Geo.T10_plane_perpendicular
 #print axioms Geo.T10_planes_parallel_iff
 #print axioms Geo.mirror2G_eq_mirror2
+#print axioms Geo.bracket_is_zeta
+#print axioms Geo.zeta_bisectors
+#print axioms Geo.T10_angle_bisectors
